@@ -118,7 +118,8 @@ func (r *Run) Floor(name string, got, want int) {
 		// Instance counts were confirmed on a tree whose functions are all in the rule vocabulary. When code has
 		// been moved into helpers the vocabulary does not know, sites are found through those helpers and their
 		// number legitimately differs (merged duplicates, per-frame counting): the count is then recorded, not enforced.
-		if r.HasTransparent() {
+		// A rule that finds no instance at all has decided nothing and stays a failure either way.
+		if r.HasTransparent() && got > 0 {
 			r.Notes = append(r.Notes, fmt.Sprintf("instance count %s: found %d, confirmed count on the vocabulary tree %d (not enforced: the tree has helpers outside the vocabulary)", name, got, want))
 			return
 		}
